@@ -56,7 +56,8 @@ Verdict(rec) ==
   /\ ((W /\ ok /\ rec.mode = "full") =>
         /\ V(tid, "C03", C03(b0, doc, xk, rec.fold))
         /\ Diag(tid, "C03", "inline", InlineComplex(doc, xk))
-        /\ (C03_Unique(b0, doc, rec.fold) \/ Out(<<"DIAG", tid, "C03", "unique", <<>> >>)))
+        /\ (C03_Unique(b0, doc, rec.fold) \/ Out(<<"DIAG", tid, "C03", "unique", <<>> >>))
+        /\ Diag(tid, "C03", "named-but-missing", { x[2] : x \in { y \in RefsIn(doc) : y[2][1] = "root" /\ Len(y[2]) = 3 /\ y[2][2] = "definitions" /\ y[2][3] \notin Defs(doc) } }))
   /\ ((W /\ ok /\ rec.mode = "expand") =>
         /\ V(tid, "C05", C05(b0, doc) /\ C01(b0, b1, rec.ru) /\ (rec.rerun => (HasCycle(b0) \/ rec.sameRerun)))
         /\ Diag(tid, "C05", "target", { x[2] : x \in { y \in RefsIn(doc) : ~CanonicalRef(doc, y[2]) } })
